@@ -450,7 +450,10 @@ class ScaledInteger(HasUnit, DataType):
             intval = int(round(value / self.scale))
         except (ValueError, OverflowError):  # NaN, +/-inf or a quotient beyond the float range
             raise RangeError(f'{shortrepr(value)} is not a finite number in the range of the datatype') from None
-        return float(intval * self.scale)   # return 'actual' value (which is more discrete than a float)
+        result = float(intval * self.scale)   # 'actual' value (which is more discrete than a float)
+        if abs(result) > sys.float_info.max:
+            raise RangeError(f'{shortrepr(value)} is beyond the range of the datatype')
+        return result
 
     def validate(self, value, previous=None):
         # convert
